@@ -330,6 +330,27 @@ func (val Node) ParseI64(ctx *Context) (int64, bool) {
 	return i, true
 }
 
+// parseKeyI64 and parseKeyU64 convert the text of an object key for maps with
+// integer keys. Unlike the `,string` conversions above they do not take the
+// text "null" for a null value: as a key it is not a number.
+func (val Node) parseKeyI64(ctx *Context) (int64, bool) {
+	s, ok := val.AsStrRef(ctx)
+	if !ok {
+		return 0, false
+	}
+	i, err := ParseI64(s)
+	return i, err == nil
+}
+
+func (val Node) parseKeyU64(ctx *Context) (uint64, bool) {
+	s, ok := val.AsStrRef(ctx)
+	if !ok {
+		return 0, false
+	}
+	i, err := ParseU64(s)
+	return i, err == nil
+}
+
 func (val Node) ParseBool(ctx *Context) (bool, bool) {
 	s, ok := val.AsStrRef(ctx)
 	if !ok {
